@@ -468,6 +468,12 @@ func (w *Whisper) baseInterval(a *ArchiveInfo) (Timestamp, error) {
 	if _, err := t.TakeFrom(buf[:]); err != nil {
 		return 0, err
 	}
+	if int64(t)%int64(a.secondsPerPoint) != 0 {
+		// NOTE: all slot positions are computed relative to this interval.
+		// If it is not aligned (a corrupt file), the numbers of slots computed
+		// from two aligned intervals become inconsistent.
+		return 0, fmt.Errorf("corrupt archive: time %d of the first point is not a multiple of step %d", t, a.secondsPerPoint)
+	}
 	return t, nil
 }
 
